@@ -170,7 +170,14 @@ func runWorker(worker string, job Job, race bool, onResult func(ResultLine)) wor
 	cmd.Dir = scratch
 	cmd.Env = append(os.Environ(), "VERIF_JOB="+jf.Name(), "GOMAXPROCS=2", "GOTRACEBACK=all")
 	if race {
-		cmd.Env = append(cmd.Env, "GORACE=halt_on_error=0 log_path="+jf.Name()+".race")
+		cmd.Env = append(cmd.Env, "GORACE=halt_on_error=0 log_path="+jf.Name()+".race", "VERIF_RACE_LOG="+jf.Name()+".race")
+		defer func() {
+			if ms, _ := filepath.Glob(jf.Name() + ".race.*"); ms != nil {
+				for _, m := range ms {
+					os.Remove(m)
+				}
+			}
+		}()
 	}
 	var stderr bytes.Buffer
 	cmd.Stderr = &stderr
@@ -178,6 +185,12 @@ func runWorker(worker string, job Job, race bool, onResult func(ResultLine)) wor
 	if err := cmd.Start(); err != nil {
 		infra("starting worker: %v", err)
 	}
+	// safety net: no worker may outlive a generous bound (the in-process watchdog handles CPU
+	// loops; this handles a process that is blocked without burning CPU)
+	limit := time.Duration(300+60*(len(job.Seeds)+len(job.Replays))) * time.Second
+	timedOut := false
+	killer := time.AfterFunc(limit, func() { timedOut = true; cmd.Process.Kill() })
+	defer killer.Stop()
 	end := workerEnd{kind: "crash"}
 	var tail []string
 	rd := bufio.NewReaderSize(pipe, 1<<20)
@@ -210,6 +223,9 @@ func runWorker(worker string, job Job, race bool, onResult func(ResultLine)) wor
 		}
 	}
 	cmd.Wait()
+	if timedOut {
+		infra("a worker process did not finish within %v (blocked without progress, last run: %s)", limit, end.last)
+	}
 	end.stderr = stderr.String() + strings.Join(tail, "")
 	return end
 }
@@ -555,7 +571,7 @@ func check(prop, tier string, seed int64, budget, workers, maxSeeds int, race, n
 		}
 		// confirm in a fresh process before spending time on it
 		v0 := evalScenario(worker, prop, sc, race, 20)
-		if v0.OK || v0.Class != g.v.Class || v0.Signature != g.v.Signature {
+		if !sameViolation(v0, g.v.Class, g.v.Signature) {
 			infra("violation %q of seed %d did not reproduce in a fresh process (got ok=%v class=%q sig=%q): the simulation is not deterministic for this case", k, g.v.Seed, v0.OK, v0.Class, v0.Signature)
 		}
 		if v0.Scenario != nil {
@@ -573,7 +589,7 @@ func check(prop, tier string, seed int64, budget, workers, maxSeeds int, race, n
 		var last *Verdict
 		for i := 0; i < 2; i++ {
 			last = evalScenario(worker, prop, sc, race, 20)
-			if last.OK || last.Class != g.v.Class || last.Signature != g.v.Signature {
+			if !sameViolation(last, g.v.Class, g.v.Signature) {
 				ok = false
 			}
 		}
@@ -594,6 +610,20 @@ func check(prop, tier string, seed int64, budget, workers, maxSeeds int, race, n
 	}
 	fmt.Printf("verifctl: %d scenarios, %d simulated runs, %d scheduler steps, %d distinct interleavings, %.0f runs/hour, exit %d\n", agg.evals, agg.runs, agg.steps, len(agg.traces), float64(agg.runs)/exploreS*3600, exit)
 	return exit
+}
+
+// sameViolation: a replay must fail with the same class and signature.  Race reports are the
+// one exception: which of several conflicting access pairs ThreadSanitizer reports first depends
+// on its (pseudo-random) shadow-cell eviction, so for the data-race class any race report of the
+// server counts as the same violation.
+func sameViolation(v *Verdict, class, sig string) bool {
+	if v == nil || v.OK || v.Invalid {
+		return false
+	}
+	if class == "c10-data-race" {
+		return v.Class == class
+	}
+	return v.Class == class && v.Signature == sig
 }
 
 func oneLine(s string, n int) string {
